@@ -244,6 +244,13 @@ class Executor:
             st.env[n] = self.mk_param(st, n, pmap[cn])
             self.entry_params[cn] = st.env[n]
             self.entry_params[n] = st.env[n]
+            # callers that omit an optional argument are verified against the default the CONTRACT names: the def must have the same
+            if pmap[cn].startswith('Opt:'):
+                d = pmap[cn].split(':', 2)
+                want = d[2] if len(d) > 2 else 'None'
+                k_ = i - (len(names) - len(args.defaults))
+                have = ast.unparse(args.defaults[k_]) if 0 <= k_ < len(args.defaults) else '<no default>'
+                self.oblige(st.fork().tag(n), 'signature.default_is_the_contracts', 'true' if have == want else 'false', 'pre')
         if args.vararg:
             n = args.vararg.arg
             cn = n if n in pmap else cnames[-1]
@@ -296,6 +303,8 @@ class Executor:
     def at_return(self, st, val):
         self.paths += 1
         c = self.c
+        if st.flags.get('caught_user_exception'):
+            self.oblige(st, 'exceptions.user_exception_reaches_the_consumer', 'false', 'post')
         if self.is_gen:
             return self.gen_exit(st, 'end')
         if c.kind in ('iterfn', 'iterfn-fx'):
@@ -630,6 +639,11 @@ class Executor:
             if h is None:
                 return k_after.exc(st2, e)
             st2 = st2.tag('except:%s' % e.cls)
+            if e.cls == 'UserException':
+                # an exception of user code (a Python predicate, a projection function) caught by a handler broad enough for it:
+                # unless the handler leaves by raising, the consumer never sees it (obligation at the function's normal exits)
+                st2.flags = dict(st2.flags)
+                st2.flags['caught_user_exception'] = getattr(h, 'lineno', 0)
             if h.name:
                 st2.env[h.name] = SV('Exc', e.cls)
             self.exec_block(h.body, st2, k_after)
@@ -1767,6 +1781,10 @@ class Executor:
             if base.sort == 'OptIter':
                 self.oblige(st, 'safety.close_on_none', NOT(EQ(base.e, '(- 1)')), 'safety')
             self.iter_close(st, SV('Iter', base.e))
+            if base.meta.get('nondet'):
+                # a generator that may run user code (a Python predicate reached through yield from): its finalisation can raise;
+                # the generator is finished either way
+                return [(st, NONE), (st.fork().tag('close.raises'), Exc('UserException'))]
             return [(st, NONE)]
         if base.sort == 'Term':
             # dynamic dispatch = case split on the constructor; a non-IUnifiable receiver has no method
@@ -1826,7 +1844,10 @@ class Executor:
                     continue
                 d = ps.split(':', 2)
                 dv = d[2] if len(d) > 2 else 'None'
-                args = args + [NONE if dv == 'None' else (TRUE if dv == 'True' else FALSE if dv == 'False' else SV('Int', dv))]
+                if dv[:1] in ('"', "'"):
+                    args = args + [SV('Str', smt_str(ast.literal_eval(dv)))]
+                else:
+                    args = args + [NONE if dv == 'None' else (TRUE if dv == 'True' else FALSE if dv == 'False' else SV('Int', dv))]
         elif kws:
             raise OutOfSubset('keyword arguments of %s' % c.name, e)
         if len(args) != len(params):
